@@ -107,6 +107,10 @@ class SeededChooser:
     def yields(self):
         return self.rng.choice((0, 0, 0, 1, 2))
 
+    def ack(self):
+        """loop yields between a message becoming visible and `produce` returning (slow acknowledgement)"""
+        return self.rng.choice((0, 0, 0, 1, 3, 80))
+
 
 class PrefixChooser:
     """follows a given prefix of choices, then always takes alternative 0; records the
@@ -125,6 +129,9 @@ class PrefixChooser:
         return i
 
     def yields(self):
+        return 0
+
+    def ack(self):
         return 0
 
 
@@ -220,5 +227,7 @@ class HeldBus:
                               step=bus.loop.step if bus.loop else None)
                 bus.topics.setdefault(topic, []).append(value)
                 bus._kick()
+                for _ in range(bus.chooser.ack() if hasattr(bus.chooser, "ack") else 0):
+                    await asyncio.sleep(0)
 
         return Consumer, Producer
